@@ -78,6 +78,140 @@ def exhaustive(n):
                "fields": [{"key": "m%d" % (i + 1), "mode": m, "ty": ty, "out": fo} for i, (m, ty, fo) in enumerate(combo)]}
 
 
+# ---------------------------------------------------------------------------
+# line-level interleavings of the serial chain on a REAL 1-worker pool (hunt C09/1)
+
+def interleaving_stage(ctx, max_runs=None):
+    """
+    `mutation { first second third }` on a real `ThreadPoolRuntime(max_workers=1)`: the callback of the serial chain runs on
+    the worker thread while the submitting thread is still inside `execute_fields_serially`. A `sys.settrace` line tracer
+    (library untouched: threads are only DELAYED) steps the two threads through EVERY interleaving, at source-line granularity,
+    of the chain's callback against the submitting thread's statements after `map_value` returned (hooked runtime: the hook
+    arms the controller and releases the first resolver). Oracle = C09: all three resolvers run, in order; data lists the three
+    keys in order.
+    """
+    import sys
+    import threading
+    import time
+    import py_gql.execution.executor as ex
+    from py_gql import build_schema, process_graphql_query
+    from py_gql.execution import Executor
+    from py_gql.execution.runtime import ThreadPoolRuntime
+    exfile = ex.__file__
+
+    def one_run(schedule):
+        """schedule: list of 'M'/'W' decisions taken whenever both threads wait at a line; returns (outcome, decisions, width)"""
+        calls = []
+        gate = threading.Event()
+        schema = build_schema("type Query { x: Int } type Mutation { first: Int second: Int third: Int }")
+
+        def mk(name, value, gated):
+            def resolver(root, c, info):
+                calls.append(name)
+                if gated:
+                    gate.wait(5)
+                return value
+            schema.register_resolver("Mutation", name, resolver)
+        mk("first", 1, True)
+        mk("second", 2, False)
+        mk("third", 3, False)
+
+        cond = threading.Condition()
+        st = {"armed": False, "waiting": {}, "gone": set(), "decisions": [], "turn": None, "main": threading.get_ident()}
+
+        def role():
+            return "M" if threading.get_ident() == st["main"] else "W"
+
+        def arrive():
+            r = role()
+            with cond:
+                if not st["armed"] or len(st["decisions"]) >= 24:
+                    return
+                st["waiting"][r] = True
+                cond.notify_all()
+                other = "W" if r == "M" else "M"
+                t_end = time.time() + 0.1
+                while True:
+                    if st["turn"] == r:
+                        st["turn"] = None
+                        break
+                    if st["waiting"].get(other) and st["turn"] is None:
+                        k = len(st["decisions"])
+                        pick = schedule[k] if k < len(schedule) else "M"
+                        st["decisions"].append(pick)
+                        st["turn"] = pick
+                        cond.notify_all()
+                        continue
+                    if other in st["gone"] or time.time() > t_end:
+                        break                       # the other side is not in the controlled region: run freely
+                    cond.wait(0.02)
+                st["waiting"][r] = False
+                cond.notify_all()
+
+        def tracer(frame, event, arg):
+            code = frame.f_code
+            if code.co_filename != exfile or code.co_name not in ("cb", "_next"):
+                return None
+
+            def local(frame, event, arg):
+                if event == "line":
+                    arrive()
+                elif event == "return" and frame.f_code.co_name == ("cb" if role() == "W" else "_next"):
+                    with cond:
+                        st["gone"].add(role())
+                        cond.notify_all()
+                return local
+            return local
+
+        class Hooked(ThreadPoolRuntime):
+            def map_value(self, value, then, else_=None):
+                r = super().map_value(value, then, else_)
+                if getattr(then, "__name__", "") == "cb" and not st["armed"]:
+                    with cond:
+                        st["armed"] = True          # from here on the two threads are stepped line by line
+                    gate.set()                      # the first resolver may finish: its callback will run on the worker
+                return r
+
+        rt = Hooked(max_workers=1)
+        threading.settrace(tracer)
+        sys.settrace(tracer)
+        try:
+            fut = process_graphql_query(schema, "mutation { first second third }", runtime=rt, executor_cls=Executor)
+        finally:
+            sys.settrace(None)
+        try:
+            res = fut.result(timeout=5)
+            outcome = ["ok", base.dumps(res.data), len(res.errors), list(calls)]
+        except Exception as err:  # noqa
+            outcome = ["failed", type(err).__name__, list(calls)]
+        finally:
+            threading.settrace(None)
+            gate.set()
+            rt._inner.shutdown(wait=False)
+        return outcome, st["decisions"]
+
+    expected = ["ok", base.dumps({"first": 1, "second": 2, "third": 3}), 0, ["first", "second", "third"]]
+    stack, seen, n = [[]], 0, 0
+    max_runs = max_runs or (14 if ctx.tier == "quick" else 200)
+    while stack and n < max_runs and not ctx.out_of_time():
+        prefix = stack.pop()
+        outcome, decisions = one_run(prefix)
+        n += 1
+        ctx.count()
+        if outcome != expected:
+            confirm, _ = one_run(decisions)           # timing plays a (small) part in the stepping: confirm before reporting
+            if confirm != expected:
+                ctx.fail("c09:interleaving:threadpool-real-w1:serial-chain-lost",
+                         "mutation { first second third } on a 1-worker pool under the line interleaving %s (M = submitting thread, "
+                         "W = worker running the chain's callback): %s instead of %s" % ("".join(decisions), outcome, expected),
+                         {"stream": "interleaving", "decisions": decisions, "got": outcome, "expected": expected})
+                break
+        for pos in range(len(decisions) - 1, len(prefix) - 1, -1):
+            alt = "W" if decisions[pos] == "M" else "M"
+            stack.append(decisions[:pos] + [alt])
+    ctx.extra["interleavings_explored"] = n
+
+
 def run(ctx):
     import time
     W.quiet()
@@ -122,6 +256,7 @@ def run(ctx):
         base.history_stream(ctx, "C09")
         base.probe_many_root_fields(ctx, "C09", kinds=("mutation",))
         base.abandoned_stage(ctx, "C09")
+        interleaving_stage(ctx)
         base.real_pool_stage(ctx, "C09", extra_oracle=c09_oracle, n_random=4 if ctx.tier == "quick" else 30, kinds=("mutation",))
     finally:
         W.close_private_loop()
@@ -134,6 +269,10 @@ def replay(ctx, data):
     if data.get("input", {}).get("probe") == "many-root-fields":
         before = len(ctx.found)
         base.probe_many_root_fields(ctx, "C09", kinds=("mutation",))
+        return len(ctx.found) == before
+    if data.get("input", {}).get("stream") == "interleaving":
+        before = len(ctx.found)
+        interleaving_stage(ctx, max_runs=200)
         return len(ctx.found) == before
     if data.get("input", {}).get("stream") == "abandoned":
         before = len(ctx.found)
